@@ -22,15 +22,16 @@ class P(Prop):
 
     def gen_case(self, single=False):
         rng = self.rng
-        c = gen.circuit(rng, n_in=(1, 5), n_gates=(1, 10), max_arity=rng.choice([2, 3, 4]), consts=0.1, dead=False,
-                        p_out=0.2 if not single else 0.0)
+        c = gen.circuit(rng, n_in=(1, 5), n_gates=(1, 10), max_arity=rng.choice([2, 3, 4]), consts=0.1,
+                        dead=rng.random() < 0.3, p_out=0.2 if not single else 0.0)
         if single:
             for o in list(c.outputs()):
                 c.set_output(o, False)
             gates = [n for n in c.graph.nodes if c.type(n) in gen.GATES]
             sinks = [n for n in gates if not c.fanout(n)]
             c.set_output(self.rng.choice(sinks or gates))
-            c.remove_unloaded()
+            if rng.random() < 0.7:
+                c.remove_unloaded()      # otherwise: gates outside the output cone stay (lint accepts them)
         return c
 
     def correspond(self, n):
